@@ -426,3 +426,8 @@ Arguments is_rv_block_structure {A}. Arguments block_structure_candidates {A}. A
    identified with the key they belong to. *)
 Definition exhaustive_pairs {K C : Type} (cat : K -> C) (ceqb : C -> C -> bool) (keys : list K) : list (list (K * K)) :=
   map (fun combo => combine combo combo) (all_combinations cat ceqb keys).
+
+(* iovsearch/tool.py wf_etas_removal(remove, model_entry, etas_subsets, i): one candidate per subset, numbered i, i+1, ...
+   (called with non_empty_proper_subsets of the IOV parameters and non_empty_subsets of the IIV parameters) *)
+Definition removal_candidates {A} (subsets : list (list A)) (i : nat) : list (nat * list A) :=
+  combine (seq i (length subsets)) subsets.
